@@ -482,7 +482,7 @@ void AspifTextOutput::writeDirectives() {
 				}
 				break;
 			case Directive_t::Minimize:
-				sep = "#minimize{"; term = ".";
+				os_ << "#minimize{"; term = ".";
 				for (uint32_t n = get<uint32_t>(); n--; sep = "; ") {
 					printName(os_ << sep, get<Lit_t>());
 					os_ << "=" << get<Weight_t>();
